@@ -130,11 +130,19 @@ def init_environment(denoise_result, ui):
         "denoise": {} if denoise_result is None else denoise_result.details,
     }
 
+    # cpuinfo needs a PATH. Only provide an empty one while it runs: with an empty
+    # PATH left behind, commands that are found without any PATH, such as sudo for
+    # rebench-denoise, could not be started any longer.
+    path_was_unset = "PATH" not in os.environ
     try:
-        if "PATH" not in os.environ:
+        if path_was_unset:
             os.environ["PATH"] = ""
 
-        cpu_info = _get_cpu_info_internal()
+        try:
+            cpu_info = _get_cpu_info_internal()
+        finally:
+            if path_was_unset:
+                os.environ.pop("PATH", None)
 
         if cpu_info:
             if 'brand_raw' in cpu_info:
